@@ -97,6 +97,12 @@ def fold(t, ctx, env=None, depth=0):
             out = dict(b)
             out.update(v[0] if isinstance(v, tuple) and len(v) == 1 else v)
             return out
+        if how == "method:setdefault" and isinstance(b, dict):
+            v = fold(val, ctx, env, depth + 1)
+            if isinstance(v, tuple) and len(v) == 2:
+                out = dict(b)
+                out.setdefault(v[0], v[1])
+                return out
         raise NotConstant("update %s" % how)
     if op == "param":
         k = ("param", t.a[0])
